@@ -47,7 +47,7 @@ func TestDebugHTML(t *testing.T) {
 	for _, p := range rd.Document.Pages {
 		pages = append(pages, p.VerifPageBox())
 	}
-	od := observePages(pages, map[string]bool{}, map[string]bool{})
+	od := observePages(pages, map[string]bool{}, map[string]bool{}, map[string]bool{})
 	for _, x := range od.texts {
 		fmt.Printf("L page %d owner=%q pseudo=%q %q at (%.3f, %.3f)\n", x.page+1, x.owner, x.pseudo, x.text, x.x, x.y)
 	}
